@@ -5,6 +5,16 @@ C17 — property theorems: tolerant comparison, rounding and the integer helpers
 whose formulas are the definitions generated from float_cmp.cc (`Gen/C17.lean`).  `tol s a b e` is the documented
 tolerance of the style (`e·max(|a|,|b|)`, `e·min(|a|,|b|)`, `e`), `IsTrunc tr` states that `tr` is the C++ conversion
 `I(val)`.  Integer helpers: `IType` = signedness and width, result `none` = some intermediate value is not representable.
+
+Three layers carry the quantifier "for all pairs of values of a floating type":
+* the theorems over an arbitrary ordered field `K` (exact arithmetic: documented definitions, algebra, rounding laws);
+* the `rat_…` theorems: the functions the driver executes on exact inputs (`eqRat`, `roundRat`, … of Model/C17.lean,
+  compiled against core Lean's `Rat`) ARE the generic functions at `K = ℚ`, so the field theorems speak about the very
+  values the harness compares with the C++ results;
+* the `fp_…` theorems: the comparison algebra holds verbatim in the rounding arithmetic `FP f` of every binary
+  floating-point format `f` (binary32/64, x87 extended, the harness' 8-bit format), for all finite operands — no
+  exactness assumption.  (The documented *definitions* and the distance/direction laws of round/trunc are statements
+  about real numbers and are proved in exact arithmetic only.)
 -/
 import DuneVerif.Proofs.C17
 import DuneVerif.Proofs.C17Int
@@ -61,6 +71,10 @@ theorem ne_not_eq (s : Style) (a b e : K) : neS s a b e = !eqS s a b e := rfl
 /-- documented: `lt = ne && first < second`, `gt = ne && first > second` -/
 theorem lt_def (s : Style) (a b e : K) : ltS s a b e = true ↔ (a < b ∧ eqS s a b e = false) := ltS_iff s a b e
 theorem gt_def (s : Style) (a b e : K) : gtS s a b e = true ↔ (b < a ∧ eqS s a b e = false) := gtS_iff s a b e
+/-- documented: `le = eq || first < second`, `ge = eq || first > second` -/
+theorem le_def (s : Style) (a b e : K) : leS s a b e = true ↔ (a < b ∨ eqS s a b e = true) := leS_iff s a b e
+theorem ge_def (s : Style) (a b e : K) : geS s a b e = true ↔ (b < a ∨ eqS s a b e = true) := by
+  simp [geS, Gen.ge]
 
 /-- exactly one of less / equal / greater holds (non-negative epsilon) -/
 theorem trichotomy (s : Style) (a b e : K) (h : 0 ≤ e) :
@@ -104,13 +118,7 @@ theorem lt_iff_gt_swap (s : Style) (a b e : K) : ltS s a b e = gtS s b a e := by
 /-- `std::vector`: equal iff the sizes agree and every pair of components is equal -/
 theorem vec_eq_conj (s : Style) (a b : List K) (e : K) :
     eqVec s a b e = true ↔ a.length = b.length ∧
-      ∀ (i : Nat) (ha : i < a.length) (hb : i < b.length), eqS s a[i] b[i] e = true := by
-  unfold eqVec
-  by_cases h : a.length = b.length
-  · have hb : (a.length != b.length) = false := by simp [h]
-    rw [hb]; simp only [Bool.false_eq_true, if_false]
-    exact ⟨fun hl => ⟨h, (eqLoop_iff s e a b h).mp hl⟩, fun hr => (eqLoop_iff s e a b h).mpr hr.2⟩
-  · simp [h]
+      ∀ (i : Nat) (ha : i < a.length) (hb : i < b.length), eqS s a[i] b[i] e = true := eqVec_iff s a b e
 
 /-- `FieldVector<T,n>`: equal iff every pair of components is equal -/
 theorem fvec_eq_conj (s : Style) (a b : List K) (e : K) (h : a.length = b.length) :
@@ -393,6 +401,45 @@ theorem trunc_unsigned_zero (s : Style) (rs : RStyle) (tr : K → Int) (x e : K)
     simp [truncUp, hd, neS, Gen.ne, h']
   cases rs <;> simp only [trunc, hd, hup] <;> (try split) <;> rfl
 
+/-- unsigned target type: an argument that is not equal to 0 within epsilon is truncated exactly as for a signed type -/
+theorem trunc_unsigned_eq_signed (s : Style) (rs : RStyle) (tr : K → Int) (x e : K) (h : eqS s x 0 e = false) :
+    trunc s true rs tr x e = trunc s false rs tr x e := by
+  have hd : truncDown s true tr x e = truncDown s false tr x e := by simp [truncDown, h]
+  have hu : truncUp s true tr x e = truncUp s false tr x e := by simp [truncUp, hd]
+  cases rs <;> simp only [trunc, hd, hu]
+
+/-- every rounding style: the truncated value is the floor of the argument or the integer above it (distance at
+    most 1; it is the integer above only in the cases listed in `trunc_downward_spec` / `trunc_upward_spec`) -/
+theorem trunc_within (s : Style) (rs : RStyle) {tr : K → Int} (htr : IsTrunc tr) (x e : K) :
+    let r := trunc s false rs tr x e
+    (r = floorOf tr x ∨ r = floorOf tr x + 1) ∧ x - 1 < ((r : Int) : K) ∧ ((r : Int) : K) ≤ x + 1 := by
+  intro r
+  obtain ⟨hl, hu⟩ := floorOf_spec htr x
+  have hd := trunc_downward_spec s htr x e (floorOf tr x) hl hu
+  have hup := trunc_upward_spec s htr x e (floorOf tr x) hl hu
+  have hcases : r = trunc s false .downward tr x e ∨ r = trunc s false .upward tr x e := by
+    show trunc s false rs tr x e = _ ∨ trunc s false rs tr x e = _
+    cases rs
+    · rw [trunc_towardZero_eq]; split <;> simp
+    · rw [trunc_towardInf_eq]; split <;> simp
+    · exact Or.inl rfl
+    · exact Or.inr rfl
+  have hr : r = floorOf tr x ∨ r = floorOf tr x + 1 := by
+    rcases hcases with h | h <;> rw [h]
+    · rw [hd]; split <;> simp
+    · rw [hup]; split
+      · simp
+      · split <;> simp
+  refine ⟨hr, ?_, ?_⟩
+  · rcases hr with h | h <;> rw [h] <;> push_cast <;> linarith
+  · rcases hr with h | h <;> rw [h] <;> push_cast <;> linarith
+
+example : trunc .absolute true .downward trQ (3/2) 2 = 0 ∧ trunc .absolute false .downward trQ (3/2) 2 = 2 := by
+  constructor
+  · exact trunc_unsigned_zero .absolute .downward trQ (3/2) 2 (by rw [eq_def]; norm_num [tol])
+  · have := trunc_downward_spec .absolute trQ_isTrunc (3/2) 2 1 (by norm_num) (by norm_num)
+    rw [this, if_pos (by rw [eq_def]; norm_num [tol])]; norm_num
+
 -- -5/2 with epsilon 0: downward -3, upward -2, towardZero -2, towardInf -3
 example : trunc .relativeWeak false .downward trQ (-5/2) 0 = -3 ∧ trunc .relativeWeak false .upward trQ (-5/2) 0 = -2 ∧
     trunc .relativeWeak false .towardZero trQ (-5/2) 0 = -2 ∧ trunc .relativeWeak false .towardInf trQ (-5/2) 0 = -3 := by
@@ -408,6 +455,178 @@ example : trunc .relativeWeak false .downward trQ (-5/2) 0 = -3 ∧ trunc .relat
   · rw [trunc_towardInf_eq, if_neg (by norm_num), hd]
 
 end rounding
+
+/-! ## The functions the driver executes on exact inputs are the generic ones at `ℚ`
+
+`eqRat`, `roundRat`, … are defined in Model/C17.lean with the instances of core Lean's `Rat` (that file cannot import
+Mathlib).  Each statement below is an application of a field theorem to them: it type-checks only because the core
+instances and Mathlib's ordered-field structure on `ℚ` are the same operations. -/
+
+theorem trRat_eq (x : ℚ) : trRat x = if 0 ≤ x then ⌊x⌋ else ⌈x⌉ := by
+  unfold trRat
+  by_cases h : 0 ≤ x
+  · have hn : 0 ≤ x.num := Rat.num_nonneg.mpr h
+    rw [if_pos h, Rat.floor_def', Int.tdiv_eq_ediv_of_nonneg hn]
+  · have hn : x.num < 0 := Rat.num_neg.mpr (not_le.mp h)
+    rw [if_neg h]
+    have hc : ⌈x⌉ = -⌊-x⌋ := by rw [Int.floor_neg, neg_neg]
+    rw [hc, Rat.floor_def', Rat.num_neg_eq_neg_num, Rat.den_neg_eq_den]
+    have : Int.tdiv x.num (x.den : Int) = -(Int.tdiv (-x.num) (x.den : Int)) := by rw [Int.neg_tdiv, neg_neg]
+    rw [this, Int.tdiv_eq_ediv_of_nonneg (by omega)]
+
+/-- the driver's float → integer conversion is truncation toward zero -/
+theorem trRat_isTrunc : IsTrunc trRat := by
+  have : trRat = trQ := by funext x; rw [trRat_eq]; rfl
+  rw [this]; exact trQ_isTrunc
+
+theorem rat_eq_def (s : Style) (a b e : ℚ) : eqRat s a b e = true ↔ |a - b| ≤ tol s a b e := eq_def s a b e
+theorem rat_eq_symm (s : Style) (a b e : ℚ) : eqRat s a b e = eqRat s b a e := eq_symm s a b e
+theorem rat_ne_not_eq (s : Style) (a b e : ℚ) : neRat s a b e = !eqRat s a b e := ne_not_eq s a b e
+theorem rat_trichotomy (s : Style) (a b e : ℚ) (h : 0 ≤ e) :
+    (ltRat s a b e = true ∧ eqRat s a b e = false ∧ gtRat s a b e = false) ∨
+    (ltRat s a b e = false ∧ eqRat s a b e = true ∧ gtRat s a b e = false) ∨
+    (ltRat s a b e = false ∧ eqRat s a b e = false ∧ gtRat s a b e = true) := trichotomy s a b e h
+theorem rat_le_ge (s : Style) (a b e : ℚ) :
+    leRat s a b e = (ltRat s a b e || eqRat s a b e) ∧ geRat s a b e = (gtRat s a b e || eqRat s a b e) :=
+  ⟨le_iff_lt_or_eq s a b e, ge_iff s a b e⟩
+theorem rat_vec_eq_conj (s : Style) (a b : List ℚ) (e : ℚ) :
+    eqVecRat s a b e = true ↔ a.length = b.length ∧
+      ∀ (i : Nat) (ha : i < a.length) (hb : i < b.length), eqRat s a[i] b[i] e = true := vec_eq_conj s a b e
+theorem rat_fvec_eq_conj (s : Style) (a b : List ℚ) (e : ℚ) (h : a.length = b.length) :
+    eqFVRat s a b e = true ↔ ∀ (i : Nat) (ha : i < a.length) (hb : i < b.length), eqRat s a[i] b[i] e = true :=
+  fvec_eq_conj s a b e h
+theorem rat_vec_trichotomy (s : Style) (a b : List ℚ) (e : ℚ) (h : 0 ≤ e) :
+    (ltVecRat s a b e = true ∧ eqVecRat s a b e = false ∧ gtVecRat s a b e = false) ∨
+    (ltVecRat s a b e = false ∧ eqVecRat s a b e = true ∧ gtVecRat s a b e = false) ∨
+    (ltVecRat s a b e = false ∧ eqVecRat s a b e = false ∧ gtVecRat s a b e = true) := vec_trichotomy s a b e h
+theorem rat_vec_le_ge (s : Style) (a b : List ℚ) (e : ℚ) :
+    neVecRat s a b e = (!eqVecRat s a b e) ∧ leVecRat s a b e = (ltVecRat s a b e || eqVecRat s a b e) ∧
+    geVecRat s a b e = (gtVecRat s a b e || eqVecRat s a b e) ∧ neFVRat s a b e = (!eqFVRat s a b e) :=
+  ⟨vec_ne_not_eq s a b e, vec_le_iff s a b e, vec_ge_iff s a b e, fvec_ne_not_eq s a b e⟩
+theorem rat_round_within (s : Style) (rs : RStyle) (x e : ℚ) (h0 : 0 ≤ e) :
+    |((roundRat s rs x e : Int) : ℚ) - x| < 1 ∧
+    (eqRat s ((roundRat s rs x e : Int) : ℚ) x e = true ∨ |((roundRat s rs x e : Int) : ℚ) - x| ≤ 1 / 2 + e / 2) :=
+  round_within s rs trRat_isTrunc x e h0
+theorem rat_round_nearest (s : Style) (rs : RStyle) (x e : ℚ) (l : Int)
+    (hl : (l : ℚ) < x) (hu : x < (l : ℚ) + 1) (hne : eqRat s ((trRat x : Int) : ℚ) x e = false)
+    (hnt : eqRat s (x - (l : ℚ)) ((l : ℚ) + 1 - x) e = false) :
+    roundRat s rs x e = if x - (l : ℚ) < (l : ℚ) + 1 - x then l else l + 1 :=
+  round_nearest s rs trRat_isTrunc x e l hl hu hne hnt
+theorem rat_round_tie (s : Style) (rs : RStyle) (x e : ℚ) (l : Int)
+    (hl : (l : ℚ) < x) (hu : x < (l : ℚ) + 1) (hne : eqRat s ((trRat x : Int) : ℚ) x e = false)
+    (ht : eqRat s (x - (l : ℚ)) ((l : ℚ) + 1 - x) e = true) :
+    roundRat s rs x e = tieChoice rs x l := round_tie s rs trRat_isTrunc x e l hl hu hne ht
+theorem rat_trunc_spec (s : Style) (x e : ℚ) (l : Int) (hl : (l : ℚ) ≤ x) (hu : x < (l : ℚ) + 1) :
+    truncRat s false .downward x e = (if eqRat s ((l : ℚ) + 1) x e then l + 1 else l) ∧
+    truncRat s false .upward x e =
+      (if eqRat s ((l : ℚ) + 1) x e then l + 1 else if eqRat s (l : ℚ) x e then l else l + 1) :=
+  ⟨trunc_downward_spec s trRat_isTrunc x e l hl hu, trunc_upward_spec s trRat_isTrunc x e l hl hu⟩
+theorem rat_trunc_unsigned (s : Style) (rs : RStyle) (x e : ℚ) :
+    (eqRat s x 0 e = true → truncRat s true rs x e = 0) ∧
+    (eqRat s x 0 e = false → truncRat s true rs x e = truncRat s false rs x e) :=
+  ⟨trunc_unsigned_zero s rs trRat x e, trunc_unsigned_eq_signed s rs trRat x e⟩
+
+-- the driver's own evaluation of `cmp f64 relativeWeak 1:0 3:-1 1:-1` and `round f64 i32 absolute upward 5:-1 1:-10`
+example : eqRat .relativeWeak 1 (3/2) (1/2) = true := by rw [rat_eq_def]; norm_num [tol, abs_of_pos, abs_of_neg]
+example : trRat (-5/2) = -2 ∧ trRat (5/2) = 2 := by
+  constructor <;> (rw [trRat_eq]; norm_num)
+
+/-! ## The comparison algebra in the rounding arithmetic of a floating-point format
+
+`FP f` = the finite numbers of the binary format `f` (as integer multiples of its smallest subnormal) plus ±∞ and NaN;
+`-`, `*`, the conversions and the order are the IEEE 754 operations with round-to-nearest-even (Model/C17/Base.lean;
+executed by the driver against `float`, `double`, `long double` and the 8-bit class on arbitrary finite inputs).
+The statements hold for EVERY format and ALL finite operands, with a finite non-negative epsilon where the real-number
+version needs `0 ≤ ε` — overflow of `a-b` or of `ε·max(|a|,|b|)` to infinity included. -/
+
+section floating
+variable {f : Fmt}
+
+/-- equality is symmetric (every style, every epsilon, all finite operands of every format) -/
+theorem fp_eq_symm (s : Style) (a b : Int) (e : FP f) :
+    eqS s (.fin a : FP f) (.fin b) e = eqS s (.fin b) (.fin a) e := FP.eqS_symm s a b e
+
+/-- equality is reflexive for a finite non-negative epsilon -/
+theorem fp_eq_refl (s : Style) (a m : Int) (hm : 0 ≤ m) : eqS s (.fin a : FP f) (.fin a) (.fin m) = true :=
+  FP.eqS_refl s a m hm
+
+theorem fp_ne_not_eq (s : Style) (a b e : FP f) : neS s a b e = !eqS s a b e := rfl
+
+/-- exactly one of less / equal / greater holds -/
+theorem fp_trichotomy (s : Style) (a b m : Int) (hm : 0 ≤ m) :
+    let x : FP f := .fin a; let y : FP f := .fin b; let e : FP f := .fin m
+    (ltS s x y e = true ∧ eqS s x y e = false ∧ gtS s x y e = false) ∨
+    (ltS s x y e = false ∧ eqS s x y e = true ∧ gtS s x y e = false) ∨
+    (ltS s x y e = false ∧ eqS s x y e = false ∧ gtS s x y e = true) := FP.trichotomy s a b m hm
+
+theorem fp_le_ge (s : Style) (a b e : FP f) :
+    leS s a b e = (ltS s a b e || eqS s a b e) ∧ geS s a b e = (gtS s a b e || eqS s a b e) := by
+  constructor
+  · simp only [leS, ltS, Gen.le, Gen.lt, Gen.ne]
+    cases decide (a < b) <;> cases eqS s a b e <;> rfl
+  · simp only [geS, gtS, Gen.ge, Gen.gt, Gen.ne]
+    cases decide (a > b) <;> cases eqS s a b e <;> rfl
+
+theorem fp_lt_iff_gt_swap (s : Style) (a b : Int) (e : FP f) :
+    ltS s (.fin a : FP f) (.fin b) e = gtS s (.fin b) (.fin a) e := by
+  simp only [ltS, gtS, Gen.lt, Gen.gt, Gen.ne, fp_eq_symm s a b e]
+
+/-- `std::vector` / `FieldVector` of finite numbers: equality is the conjunction over the components -/
+theorem fp_vec_eq_conj (s : Style) (a b : List (FP f)) (e : FP f) :
+    (eqVec s a b e = true ↔ a.length = b.length ∧
+      ∀ (i : Nat) (ha : i < a.length) (hb : i < b.length), eqS s a[i] b[i] e = true) ∧
+    (a.length = b.length → (eqFV s a b e = true ↔
+      ∀ (i : Nat) (ha : i < a.length) (hb : i < b.length), eqS s a[i] b[i] e = true)) :=
+  ⟨eqVec_iff s a b e, eqLoop_iff s e a b⟩
+
+theorem fp_vec_eq_symm (s : Style) (a b : List Int) (e : FP f) :
+    eqVec s (a.map (FP.fin (f := f))) (b.map FP.fin) e = eqVec s (b.map FP.fin) (a.map FP.fin) e := by
+  apply eqVec_symm_of
+  intro x hx y hy
+  obtain ⟨p, _, rfl⟩ := List.mem_map.mp hx
+  obtain ⟨q, _, rfl⟩ := List.mem_map.mp hy
+  exact FP.eqS_symm s p q e
+
+/-- vectors of finite numbers under the lexicographic order: exactly one of less / equal / greater -/
+theorem fp_vec_trichotomy (s : Style) (a b : List Int) (m : Int) (hm : 0 ≤ m) :
+    let x : List (FP f) := a.map FP.fin; let y : List (FP f) := b.map FP.fin; let e : FP f := .fin m
+    (ltVec s x y e = true ∧ eqVec s x y e = false ∧ gtVec s x y e = false) ∨
+    (ltVec s x y e = false ∧ eqVec s x y e = true ∧ gtVec s x y e = false) ∨
+    (ltVec s x y e = false ∧ eqVec s x y e = false ∧ gtVec s x y e = true) := by
+  intro x y e
+  apply vec_trichotomy_of
+  · intro p hp q hq
+    obtain ⟨p', _, rfl⟩ := List.mem_map.mp hp
+    obtain ⟨q', _, rfl⟩ := List.mem_map.mp hq
+    exact FP.tri_fin p' q'
+  · intro p hp
+    obtain ⟨p', _, rfl⟩ := List.mem_map.mp hp
+    exact FP.eqS_refl s p' m hm
+
+theorem fp_vec_le_ge (s : Style) (a b : List (FP f)) (e : FP f) :
+    neVec s a b e = (!eqVec s a b e) ∧ leVec s a b e = (ltVec s a b e || eqVec s a b e) ∧
+    geVec s a b e = (gtVec s a b e || eqVec s a b e) := by
+  refine ⟨rfl, ?_, ?_⟩
+  · simp only [leVec, ltVec, neVec]
+    cases lexLt a b <;> cases eqVec s a b e <;> rfl
+  · simp only [geVec, gtVec, neVec]
+    cases lexLt b a <;> cases eqVec s a b e <;> rfl
+
+end floating
+
+-- the 8-bit format (grid unit 2^-9): 1 = 512, 1.125 = 576 (the next number after 1), epsilon 0.125 = 64, 0.0625 = 32.
+-- |1 - 1.125| = 0.125 ≤ 0.125 · 1.125 = 0.140625 → rounds to 0.140625 (72 units): equal; with epsilon 0.0625 not equal, less.
+example : eqS .relativeWeak (.fin 512 : FP Fmt.mf8) (.fin 576) (.fin 64) = true := by decide
+example : eqS .relativeWeak (.fin 512 : FP Fmt.mf8) (.fin 576) (.fin 32) = false ∧
+    ltS .relativeWeak (.fin 512 : FP Fmt.mf8) (.fin 576) (.fin 32) = true := by decide
+-- rounding matters: 1.125 · 0.1875 = 0.2109375 (108 units) is not a number of the format; it lies half way between
+-- 0.203125 (104 units) and 0.21875 (112 units) and goes to the one with the even significand
+example : ((.fin 576 : FP Fmt.mf8) * (.fin 96 : FP Fmt.mf8)) = .fin 112 := by decide
+-- overflow: 240 - (-240) = +∞ and 2 · 240 = +∞, the laws still hold (eq is true: ∞ ≤ ∞)
+example : ((.fin 122880 : FP Fmt.mf8) - (.fin (-122880) : FP Fmt.mf8)) = .inf false ∧
+    eqS .relativeWeak (.fin 122880 : FP Fmt.mf8) (.fin (-122880)) (.fin 1024) = true := by decide
+-- binary32: 1 and the next float above it compare equal with the default epsilon 2^-20 (grid unit 2^-149)
+example : eqS .relativeWeak (.fin (2 ^ 149) : FP Fmt.f32) (.fin (2 ^ 149 + 2 ^ 126)) (.fin (2 ^ 129)) = true := by decide
 
 /-! ## power, factorial, binomial, sign, classifiers -/
 
@@ -500,8 +719,15 @@ theorem pascal (t : IType) (n k : Nat) (hk : k + 1 ≤ n) (h1 : t.fits 1 = true)
 theorem binomial_outside (t : IType) (n k : Int) (h : k < 0 ∨ k > n) : binomial t n k = some 0 := by
   simp [binomial, h]
 
+-- the hypotheses of `pascal` / `binomial_symm` at the top of the 32-bit range: C(33,16) = 1166803110 < 2^31 ≤ C(34,17)
+example : binomial int32 32 15 = some 565722720 ∧ binomial int32 32 16 = some 601080390 ∧
+    binomial int32 33 16 = some (565722720 + 601080390) ∧ binomial int32 33 17 = binomial int32 33 16 ∧
+    binomial int32 34 17 = none ∧ binomial int32 (-1) 0 = some 0 ∧ binomial uint64 67 33 = some 14226520737620288370 := by decide
+
 section sign
-variable {K : Type} [Field K] [LinearOrder K] [IsStrictOrderedRing K]
+variable {K : Type} [Ring K] [LinearOrder K] [IsStrictOrderedRing K]
+/-- `sign` over any ordered ring (the integers and every ordered field): -1 exactly for negative arguments, else 1,
+    and `sign x · |x| = x` -/
 theorem sign_spec (x : K) :
     (signK x = -1 ↔ x < 0) ∧ (signK x = 1 ↔ 0 ≤ x) ∧ ((signK x : Int) : K) * |x| = x := by
   unfold signK
@@ -510,6 +736,9 @@ theorem sign_spec (x : K) :
   · have h' : 0 ≤ x := not_lt.mp h
     simp [h, abs_of_nonneg h', h']
 end sign
+
+example : signK (-3 : Int) = -1 ∧ signK (0 : Int) = 1 ∧ signK (7/2 : ℚ) = 1 := by
+  refine ⟨(sign_spec (-3 : Int)).1.mpr (by norm_num), (sign_spec (0 : Int)).2.1.mpr (le_refl _), (sign_spec (7/2 : ℚ)).2.1.mpr (by norm_num)⟩
 
 
 theorem isNaN_any {α} (f : α → Bool) (v : List α) : isNaNV f v = v.any f := by simp [isNaNV, foldl_or]
@@ -528,6 +757,16 @@ theorem isFinite_iff_not_nan_inf (v : List FpClass) :
 theorem complex_classifiers (z : FpClass × FpClass) :
     isNaNC z = [z.1, z.2].any isNaN1 ∧ isInfC z = [z.1, z.2].any isInf1 ∧ isFiniteC z = [z.1, z.2].all isFinite1 := by
   simp [isNaNC, isInfC, isFiniteC]
+
+/-- `isUnordered(FieldVector<K,1>, FieldVector<K,1>)`: true iff one of the two numbers is NaN -/
+theorem isUnordered_any (a b : FpClass) : isUnordered1 a b = [a, b].any isNaN1 := by
+  simp [isUnordered1]
+
+-- binary32 bit patterns: 0x7fc00000 is a NaN, 0x7f800000 is +∞, 0x3f800000 is 1.0
+example : isNaNV isNaN1 [classify 8 23 0x3f800000, classify 8 23 0x7fc00000] = true ∧
+    isInfV isInf1 [classify 8 23 0x3f800000, classify 8 23 0x7f800000] = true ∧
+    isFiniteV isFinite1 [classify 8 23 0x3f800000, classify 8 23 0x7f800000] = false ∧
+    isFiniteV isFinite1 [classify 8 23 0x3f800000, classify 8 23 0x00000001] = true := by decide
 
 
 end DV.C17
